@@ -34,7 +34,7 @@ type c07Case struct {
 func init() {
 	engine.Register(&engine.Check{
 		ID: "C07", Level: "exploration",
-		Rule:        "round trip: universe U in XY, XYZ, XYM, XYZM, Layout(5), Layout(7) + collections (mixed layouts, empty members, nesting <=3) + a float lattice in points: Marshal output read by an independent RFC 7946 reader (same type, nesting, numbers) and by Unmarshal / Encode+Decode (equal to the model with the format carve-outs COMPUTED from the model: layout from the first position, empty => XY, arity mismatch => error); Features: id {absent,'a','0','1e3'} x bbox {absent,XY,XYZ} x properties {nil,{},nested} x geometry {nil, each kind}; FeatureCollections of 0..2 features x bbox. Totality: grammar-directed enumeration of documents (type x coordinates menu x geometries menu; Feature id x bbox x geometry x properties menus; FeatureCollection menus) plus every prefix and every single-byte deletion of valid documents, decoded as geometry, Feature and FeatureCollection: no panic; error or well-formed result. distinct_nontrivial = distinct documents / geometries with at least one position or one member Also: a lattice of ~1100 numeric Feature ids (+-2^k and neighbours to 2^70, powers of ten to 1e22, integral values between 2^63 and 1e19) and two-step histories in which the document returned by Feature.MarshalJSON is kept while a shorter, an equally long and a longer document are marshalled.",
+		Rule:        "round trip: universe U in XY, XYZ, XYM, XYZM, Layout(5), Layout(7) + collections (mixed layouts, empty members, nesting <=3) + a float lattice in points: Marshal output read by an independent RFC 7946 reader (same type, nesting, numbers) and by Unmarshal / Encode+Decode (equal to the model with the format carve-outs COMPUTED from the model: layout from the first position, empty => XY, arity mismatch => error); Features: id {absent,'a','0','1e3'} (plus ~300 string ids: every ASCII character alone and embedded, 15 characters beyond ASCII up to U+10FFFF, JSON look-alikes) x bbox {absent,XY,XYZ} x properties {nil,{},nested} x geometry {nil, each kind}; FeatureCollections of 0..2 features x bbox. Totality: grammar-directed enumeration of documents (type x coordinates menu x geometries menu; Feature id x bbox x geometry x properties menus; FeatureCollection menus) plus every prefix and every single-byte deletion of valid documents, decoded as geometry, Feature and FeatureCollection: no panic; error or well-formed result. distinct_nontrivial = distinct documents / geometries with at least one position or one member Also: a lattice of ~1100 numeric Feature ids (+-2^k and neighbours to 2^70, powers of ten to 1e22, integral values between 2^63 and 1e19) and two-step histories in which the document returned by Feature.MarshalJSON is kept while a shorter, an equally long and a longer document are marshalled.",
 		Run:         c07Run,
 		Replay:      func(c *engine.Ctx, kind string, raw json.RawMessage) { c07Exec(c, decodeCase[c07Case](raw)) },
 		Assumptions: []string{"finite ordinates; geojson.DefaultLayout at its default XY; encoding/json and ref.ParseGeoJSON trusted"},
@@ -519,6 +519,24 @@ func c07Run(c *engine.Ctx) {
 				}
 			}
 		}
+	}
+	// string ids: every ASCII character (control characters, DEL, quote, backslash, the characters
+	// encoding/json escapes for HTML) alone and embedded, and characters beyond ASCII up to the
+	// last code point incl. unassigned and non-printable ones above U+FFFF: the document must be
+	// valid JSON whose id member is that string, and the feature must read back with that id
+	var strIDs []string
+	for r := rune(0); r < 128; r++ {
+		strIDs = append(strIDs, string(r), "a"+string(r)+"b")
+	}
+	for _, r := range []rune{0x80, 0x85, 0xa0, 0xad, 0xff, 0x2028, 0x2029, 0xfeff, 0xfffd, 0xffff, 0x10000, 0x1f600, 0xe0001, 0xf0000, 0x10ffff} {
+		strIDs = append(strIDs, string(r), "x"+string(r))
+	}
+	strIDs = append(strIDs, "null", "true", "{}", "[1]", "\"\"", "\\u0041", "</script>", "a\x00\x01\x1f\x7f", strings.Repeat("\x07", 40))
+	for _, id := range strIDs {
+		c07Exec(c, c07Case{Mode: "feature", G: geoms[1], ID: id})
+		c07Exec(c, c07Case{Mode: "feature", G: nil, ID: id, Props: 2})
+		c07Exec(c, c07Case{Mode: "fc", G: geoms[2], ID: id, NFeat: 2})
+		c.Count("string_ids", 1)
 	}
 	// numeric ids: a JSON number id must come back as the decimal text of that number
 	// (integers as plain integers), and survive a further round trip unchanged
